@@ -190,3 +190,8 @@ def nontrivial(case, result):
         v = int(result.replace("Some(", "").rstrip(")")[2:], 16)
         return v >= 2
     return False
+
+
+def prebuild(root):
+    """translator: regenerate coq/Generated/Glue.v from /repo/src (proved equal to the model in Proofs/GlueTieC08.v)"""
+    return run_translator(root, "rs2v_glue.py", "C08")
